@@ -14,6 +14,7 @@
        "H"   the letters  http        "Hs"  the letters  https
        "l"   localhost     "i"  127.0.0.1     "a"  the allowlisted host name     "e"  a foreign host name
        "x"   some other letters (never completes http->https)    "P"  the service prefix name (letters)
+       "6"   the text ::1 (only generated right after "[")
        "8"   the digits 8443          "-"  a hyphen (a host / scheme character like any letter)
 
    Ref(s) follows the parser state by state (scheme start / scheme / no scheme / special relative or
@@ -83,6 +84,23 @@ PortClass(p) ==
   ELSE IF p = <<"8">> THEN "p8443"
   ELSE "failure"                                                   \* non-digit, or digits beyond 65535
 
+(* IPv6 literals.  "6" is the text ::1 and only ever appears right after "[" (Ref is "uncertain" otherwise).  A host that
+   starts with "[" must end with "]" (then an optional ":port"); [::1] is loopback, [::1:8443], [::1:8443:8443] ... are
+   valid addresses that are NOT loopback; every other bracket content stays uncertain.                                 *)
+RECURSIVE Groups(_)
+Groups(g) == g = <<>> \/ (Len(g) >= 2 /\ g[1] = ":" /\ g[2] = "8" /\ Groups(From(g, 3)))
+Bracketed(hp) ==
+  IF hp[1] # "[" THEN "uncertain"                                  \* "[" / "]" inside a name: forbidden host code point
+  ELSE LET rb == FirstIn(hp, {"]"}) IN
+       IF rb = 0 THEN "failure"                                    \* unclosed literal
+       ELSE LET inside == SubSeq(hp, 2, rb - 1)
+                after  == From(hp, rb + 1)
+            IN IF after # <<>> /\ after[1] # ":" THEN "failure"    \* text after "]" : the host does not end with "]"
+               ELSE IF after # <<>> /\ PortClass(From(after, 2)) = "failure" THEN "failure"
+               ELSE IF inside = <<"6">> THEN "loopback"
+               ELSE IF Len(inside) >= 3 /\ Len(inside) <= 13 /\ inside[1] = "6" /\ Groups(From(inside, 2)) THEN "foreign"
+               ELSE "uncertain"
+
 \* al: which origin the deployment allowlists -- "noport": https://<a>   "port": https://<a>:8443
 Origin(scheme, hp, al) ==
   LET c  == FirstIn(hp, {":"})
@@ -90,7 +108,7 @@ Origin(scheme, hp, al) ==
       p  == IF c = 0 THEN <<>> ELSE From(hp, c + 1)
       hc == HostClass(h)
       pc == PortClass(p)
-  IN IF Has(hp, {"[", "]"}) THEN (IF hp = <<>> THEN "failure" ELSE "uncertain")
+  IN IF Has(hp, {"[", "]"}) THEN Bracketed(hp)
      ELSE IF hc = "failure" \/ pc = "failure" THEN "failure"
      ELSE IF hc = "uncertain" THEN "uncertain"
      ELSE IF hc = "loopback" THEN "loopback"
@@ -116,9 +134,11 @@ Relative(r, al) ==
 SchemeEnd(u) == FirstNotIn(u, SchemeChar)        \* index of the first token that is not a scheme character
 HasScheme(u) == u # <<>> /\ u[1] \in AlphaStart /\ SchemeEnd(u) # 0 /\ u[SchemeEnd(u)] = ":"
 
+Lone6(s) == \E i \in 1..Len(s) : s[i] = "6" /\ (i = 1 \/ s[i - 1] # "[")
 Ref(s, al) ==
   LET u == Clean(s) IN
-  IF ~HasScheme(u) THEN Relative(u, al)
+  IF Lone6(s) THEN "uncertain"
+  ELSE IF ~HasScheme(u) THEN Relative(u, al)
   ELSE LET k      == SchemeEnd(u)
            scheme == SubSeq(u, 1, k - 1)
            rest   == From(u, k + 1)
@@ -179,8 +199,25 @@ RtLead(d)   == Rt({<<sc, ":">> \o w \o <<h>> : sc \in {"H", "Hs"}, w \in Leads, 
 HostAlphabet == {"l", "i", "a", "e", "x", ".", "-", "8"}
 RtHosts(d) == Rt({<<sc, ":", "/", "/">> \o h \o t : sc \in {"H", "Hs"}, h \in StrUpTo(HostAlphabet, HostLen) \ {<<>>},
                                                     t \in {<<>>, <<"/", "x">>}})
-Cases(d) == UNION {RtFlat(d), RtTails(d), RtNeigh(d), RtLead(d), RtHosts(d), OrigFlat(d), OrigTails(d), OrigNeigh(d), OrigLead(d)}
-CaseFamilies == <<"RtFlat", "RtTails", "RtNeigh", "RtLead", "RtHosts", "OrigFlat", "OrigTails", "OrigNeigh", "OrigLead">>
+(* the "authority shape" family: every combination of userinfo (none, user, user:password, user:digits, :password, user:,
+   two "@"), host, port (none, digits, empty) and what follows (nothing, path, backslash path, fragment that looks like
+   userinfo) -- the 5..9-token shapes the length-bounded tails do not reach, e.g. localhost:x@evil / a:8@e / e#@l        *)
+Names == {"l", "e", "a"}
+UserInfos == {<<>>} \cup {<<u, "@">> : u \in Names} \cup {<<u, ":", p, "@">> : u \in Names, p \in Names}
+             \cup {<<u, ":", "8", "@">> : u \in Names} \cup {<<":", p, "@">> : p \in Names} \cup {<<u, ":", "@">> : u \in Names}
+             \cup {<<u, "@", v, "@">> : u \in Names, v \in Names} \cup {<<u, "%", "@">> : u \in Names}
+AfterAuth == {<<>>, <<"/", "x">>, <<"B", "x">>, <<"#", "@", "l">>, <<"?", "@", "l">>, <<"B", "@", "l">>}
+RtAuth(d) == Rt({<<sc, ":", "/", "/">> \o ui \o <<h>> \o po \o t :
+                   sc \in {"H", "Hs"}, ui \in UserInfos, h \in {"l", "e", "a", "i"}, po \in {<<>>, <<":", "8">>, <<":">>}, t \in AfterAuth})
+\* IPv6 literal shapes
+V6Hosts == { <<"[", "6", "]">>, <<"[", "6", ":", "8", "]">>, <<"[", "6", "]", ":", "8">>, <<"[", "6", ":", "8", "]", ":", "8">>,
+             <<"[", "6">>, <<"[", "6", "]", "e">>, <<"[", "6", "]", ".", "e">>, <<"e", "[", "6", "]">>, <<"e", "@", "[", "6", "]">>,
+             <<"[", "6", "]", "@", "e">>, <<"[", "e", "]">>, <<"[", "]">>, <<"[", "6", ":", "8", ":", "8", "]">>, <<"[", "6", "]", "B", "@", "e">>,
+             <<"[", "6", "]", ":", "e">>, <<"[", "6", "%", "]">> }
+RtV6(d) == Rt({<<sc, ":", "/", "/">> \o h \o t : sc \in {"H", "Hs"}, h \in V6Hosts, t \in {<<>>, <<"/", "x">>}})
+Cases(d) == UNION {RtFlat(d), RtTails(d), RtNeigh(d), RtLead(d), RtHosts(d), RtAuth(d), RtV6(d),
+                   OrigFlat(d), OrigTails(d), OrigNeigh(d), OrigLead(d)}
+CaseFamilies == <<"RtFlat", "RtTails", "RtNeigh", "RtLead", "RtHosts", "RtAuth", "RtV6", "OrigFlat", "OrigTails", "OrigNeigh", "OrigLead">>
 
 Al(c) == IF c.role = "rt" THEN c.cfg ELSE "noport"
 Expected(c) == [kind |-> Ref(c.s, Al(c))]
